@@ -4,7 +4,9 @@
    transformation (shift k*m, scaling, complex combination, phase, a*x+b map, entry subset), an optional lattice
    step away from the class, the typing of the submission, the tolerance kind and the partial-credit setting.
    c   = the abstract parameters (small; also carries rendering hints for the adapter: form, grader, via)
-   out = [case |-> concrete case (Comparers!Allowed's argument), allowed |-> the allowed outcome tokens, rel |-> class]
+   out = [case |-> concrete case (Comparers!Allowed's argument), allowed |-> the allowed outcome tokens, rel |-> class,
+          impl |-> what the implementation-shaped model predicts, why |-> Comparers!DeviationClass,
+          msg |-> the documented wording of a shape-mismatch message (compared as drift only)]
    The dump is replayed into real FormulaGrader / NumericalGrader / MatrixGrader objects.                         *)
 EXTENDS Comparers
 CONSTANTS Part, Thorough
@@ -63,7 +65,7 @@ EigCases(s) == IF s.li > Len(EigMats[s.mi].lams) THEN {}
                             jit : {0, 1}, tol : {"abs", "pct", "zero"}] :
                        /\ (x.tol = "zero" \/ (x.tol = "pct" /\ VIsZero(EigLam(x)))) => IsPow2(x.scale.d)
                        /\ ~Thorough => x.scale \in QuickScales
-                       /\ x.jit # 0 => (x.tol = "abs" /\ Eigen(EigM(x), EigLam(x), Vc(x.b)))}
+                       /\ x.jit # 0 => (x.tol # "zero" /\ Eigen(EigM(x), EigLam(x), Vc(x.b)))}
 BuildEig(x) == Simple("eigen", x.tol, x.jit, << <<EigM(x), EigLam(x)>> >>, << VReduce(VMul(x.scale.z, x.scale.d, Vc(x.b))) >>)
 
 (* ------------------------------------------------------------------ span *)
@@ -91,7 +93,7 @@ SpanCases(s) == LET vs == SpanSets[s.si] IN
                         sden : {1, 2}, jit : {0, 1}, tol : {"abs", "pct"}] :
                    /\ x.step = 0 => x.stepz = G(1)
                    /\ (~Thorough /\ x.step # 0) => x.sden = 1
-                   /\ x.jit # 0 => (x.tol = "abs" /\ x.step = 0 /\ x.sden = 1 /\ ~SeqIsZero(SpanVec(x)))}
+                   /\ x.jit # 0 => (x.step = 0 /\ x.sden = 1 /\ ~SeqIsZero(SpanVec(x)))}
 SpanParams(si) == [i \in 1..Len(SpanSets[si]) |-> Vc(SpanSets[si][i])]
 BuildSpan(x) == Simple("span", x.tol, x.jit, << SpanParams(x.si) >>, << VReduce(VcQ(SpanVec(x), x.sden)) >>)
 
@@ -105,7 +107,7 @@ PhaseSeeds == {[kind |-> "seed", ti |-> i] : i \in 1..Len(PhaseTargets)}
 PhaseCases(s) == {x \in [kind : {"phase"}, ti : {s.ti}, unit : Units, var : PhaseVariants, pos : 1..Len(PhaseTargets[s.ti]),
                          jit : {0, 1}, tol : {"abs", "pct"}] :
                     /\ x.var \notin {"step", "stepi", "negfirst"} => x.pos = 1
-                    /\ x.jit # 0 => (x.tol = "abs" /\ x.var = "none")}
+                    /\ x.jit # 0 => x.var = "none"}
 PhaseVec(x) == LET t == PhaseTargets[x.ti]   n == Len(t)   u == x.unit   ut == SeqScale(u.z, t) IN
   CASE x.var = "none" -> VcQ(ut, u.d)
     [] x.var = "step" -> VcQ(SeqAdd(ut, UnitVec(n, x.pos, G(u.d))), u.d)
@@ -150,7 +152,8 @@ LinSamples == << <<G(1), G(2), G(4)>>, <<G(2), G(5), G(8), G(-1)>>, <<G(3), G(3)
                  <<<<1, 1>>, G(2), <<3, -1>>>>, <<G(1), I, GZ>>, <<G(-2), G(-1), GZ, G(1), G(2)>>, <<<<0, 2>>, G(1), <<-1, 1>>, G(3)>> >>
 LinAs == {[z |-> G(1), d |-> 1], [z |-> G(2), d |-> 1], [z |-> G(-1), d |-> 1], [z |-> G(1), d |-> 2], [z |-> GZ, d |-> 1], [z |-> I, d |-> 1]}
 LinBs == {[z |-> GZ, d |-> 1], [z |-> G(1), d |-> 1], [z |-> G(-2), d |-> 1]} \cup (IF Thorough THEN {[z |-> G(1), d |-> 2], [z |-> I, d |-> 1]} ELSE {})
-LinSeeds == {[kind |-> "seed", cfg |-> g, xi |-> i, vec |-> v] : g \in LinCfgs, i \in 1..(IF Thorough THEN 9 ELSE 7), v \in BOOLEAN}
+LinSeeds == {s \in {[kind |-> "seed", cfg |-> g, xi |-> i, vec |-> v] : g \in LinCfgs, i \in 1..(IF Thorough THEN 9 ELSE 7), v \in BOOLEAN} :
+               s.vec => s.xi <= 5}
 LinExpEnt(x, s) == LET e == LinSamples[x.xi][s] IN IF x.vec THEN <<e, GAdd(GScale(2, e), G(-1))>> ELSE <<e>>
 LinShape(x) == IF x.vec THEN <<2>> ELSE <<>>
 LinStudentEnt(x, s) == LET e == LinExpEnt(x, s) IN
@@ -201,14 +204,17 @@ Build(x) == CASE x.kind = "cong" -> BuildCong(x) [] x.kind = "between" -> BuildB
 Init == c \in Seeds /\ out = "seed"
 Next == /\ c.kind = "seed"
         /\ c' \in CasesFor(c)
-        /\ out' = LET k == Build(c') IN [case |-> k, allowed |-> Allowed(k), rel |-> Relation(k)]
+        /\ out' = LET k == Build(c')   al == Allowed(k)
+                  IN [case |-> k, allowed |-> al, rel |-> RelationOf(k, al), impl |-> ImplOutcome(k), why |-> DeviationClass(k),
+                      msg |-> IF WrongShape(k) THEN MessageModel(k.policy, ExpShape(k), k.S[1].shape)
+                              ELSE [form |-> "empty", exp |-> <<>>, got |-> <<>>, same |-> FALSE]]
 IsCase == c.kind # "seed"
 K == out.case
 
 (* ------------------------------------------------------------------ laws, one INVARIANT each *)
-LawWellFormed == IsCase => WellFormedCase(K) /\ LawOutcomeWellFormed(K)
-LawGuard == IsCase => GuardOK(K)
-LawShapePolicy == IsCase => LawWrongShapeNeverGraded(K) /\ LawSuppressSilent(K)
+LawWellFormed == IsCase => WellFormedCase(K) /\ LawOutcomeWellFormed(K, out.allowed)
+LawGuard == IsCase /\ c.kind # "linear" => GuardOK(K)            \* (linear cases are filtered by GuardOK when they are generated)
+LawShapePolicy == IsCase => LawWrongShapeNeverGraded(K, out.allowed) /\ LawSuppressSilent(K, out.allowed)
                             /\ (c.kind = "shape" => ((WrongShape(K) \/ K.evalerr) <=> out.rel \in {"wrongshape", "evalerr"}))
 \* what the defining transformation generates is in the class; a lattice step leaves it exactly when the spec says so
 LawGenerator == IsCase =>
@@ -221,6 +227,11 @@ LawGenerator == IsCase =>
     [] c.kind = "entry" -> Cardinality(MatchingEntries([s \in 1..NSamples(K) |-> K.P[s][1]], K.S)) = Len(K.S[1].ent) - Cardinality(c.wrong)
     [] c.kind = "linear" -> c.nl = "none" => LawGeneratedRelations(LinE(K), K.P[1][1].den, LinS(K), K.S[1].den, c.a.z, c.a.d, c.b.z)
     [] OTHER -> TRUE
+\* the implementation-shaped model leaves the documented classes only in the circumscribed situations of DeviationClass ...
+LawImplDeviatesOnlyThere_ == IsCase => out.impl \in out.allowed \/ out.why # "none"
+\* ... and there it really does: NOT an invariant -- checked by the *_impl.cfg instances, whose counterexamples are the
+\* design-level defects (TLC is expected to report a violation)
+ImplRefines_ == IsCase => out.impl \in out.allowed
 LawKind == IsCase =>
   CASE c.kind = "cong" -> LawCongruence(K.S[1], K.P[1][1], K.P[1][2])
     [] c.kind = "between" -> LawBetween(K.S[1], K.P[1][1], K.P[1][2])
@@ -232,8 +243,8 @@ LawKind == IsCase =>
     [] c.kind = "phase" -> /\ LawPhaseCharacterisation(K.S[1], K.P[1][1]) /\ LawPhaseSymmetric(K.S[1], K.P[1][1])
                            /\ \A u \in Units : LawPhaseClosed(K.S[1], K.P[1][1], u.z, u.d)
     [] c.kind = "entry" -> LawEntryCredit(Len(K.S[1].ent), K.mode)
-    [] c.kind = "linear" -> LET E == LinE(K)  dE == K.P[1][1].den  S == LinS(K)  dS == K.S[1].den IN
-                            /\ LawRelationHierarchy(E, dE, S, dS) /\ LawLinearCreditConfigured(K.cfg, E, dE, S, dS)
-                            /\ \A m \in Modes : \A q \in {<<1, 2>>, One} : LawMoreModesNeverLower(K.cfg, E, dE, S, dS, m, q)
+    [] c.kind = "linear" -> LET E == LinE(K)  dE == K.P[1][1].den  S == LinS(K)  dS == K.S[1].den   t == RelTable(E, dE, S, dS) IN
+                            /\ LawRelationHierarchy(E, dE, S, dS) /\ LawLinearCreditConfigured(K.cfg, t, E, S)
+                            /\ \A m \in Modes : \A q \in {<<1, 2>>, One} : LawMoreModesNeverLower(K.cfg, t, E, S, m, q)
     [] OTHER -> TRUE
 =============================================================================
